@@ -46,10 +46,19 @@ def describe(eng, row, t, selfroot=("S", "self")):
         if k == "proj":
             e = x[2]
             return d(x[1]) + ("." + e[2] if e[0] == "f" else "@" + str(e[1]) if e[0] == "v" else "[]")
+        if k == "loopvar":
+            # an iterator advanced by a loop: describe it by what it iterates
+            return d(x[2]) if len(x) > 2 else "loop"
         if k == "call":
-            nm = sym.strip_all_generics(x[1]).split("::")[-1]
-            if nm in ("deref", "as_ref", "borrow", "clone", "into", "from") and x[2]:
+            nm = sym.strip_all_generics(x[1][6:] if x[1].startswith("havoc:") else x[1]).split("::")[-1]
+            if nm in ("deref", "as_ref", "borrow", "clone", "into", "from", "iter", "into_iter", "iter_mut") and x[2]:
                 return d(x[2][0])
+            if nm == "next" and x[2]:
+                # one element of the iteration, whatever drives it (for loop, for_each, fold): `each(<collection>)`
+                inner = d(x[2][0])
+                while inner.startswith("each(") and inner.endswith(")"):
+                    inner = inner[5:-1]
+                return "each(%s)" % inner
             args = [d(a) for a in x[2]]
             if args:
                 return "%s.%s(%s)" % (args[0], nm, ", ".join(args[1:]))
